@@ -23,9 +23,10 @@ RULE = ("case = (call graph: 1..4 contracted module functions (sync or async) + 
         "non-trivial = some script calls contracted code from inside a contract (a cycle through a contract) and one "
         "of: >=2 re-entries of one function within one check, a body script calling a contracted function, calls on "
         "the second instance; distinct = hash(program, scripts, ops, assignment).")
-ASSUMPTIONS = ["scripts swallow the Exceptions of the calls they make (in the harness hook and in the reference alike)",
+ASSUMPTIONS = ["scripts swallow the Exceptions of the calls they make (in the harness hook and in the reference alike); "
+               "BaseException kinds raised by method bodies propagate",
                "conditions are named functions (a lambda's documented re-evaluation would replay its script)",
-               "bodies raise Exception kinds only"]
+               "function bodies raise Exception kinds only"]
 KNOWN = {
     "D3": lambda bucket, case: bucket.startswith("nontermination|"),
     "D15": lambda bucket, case: bucket.startswith("trace|") and "body-recursion" in bucket,
@@ -55,6 +56,9 @@ def st_case(draw):
         for name in ("m", "n"):
             f = draw(G.st_func(ids, name, "method", all_async, **deco_kw))
             f["body"] = {"ret": "obj"}
+            if draw(st.integers(0, 5)) == 0:
+                # a body that ends with a BaseException (cancellation, interrupt): not swallowed by scripts
+                f["body"] = {"raise": draw(st.sampled_from(["CancelledError", "KeyboardInterrupt", "ProgBaseError", "Exception"]))}
             c["members"].append(f)
         fi = {"name": "__init__", "kind": "init", "async": False, "params": ["x", "y"],
               "defaults": {"x": "None", "y": "None"}, "decos": [], "body": {"ret": "None"}, "super": "absent"}
@@ -92,7 +96,7 @@ def st_case(draw):
     ops = []
     if with_class:
         ops += [{"op": "new", "cls": 0, "k": 0, "args": {}}, {"op": "new", "cls": 0, "k": 1, "args": {}}]
-    for _ in range(draw(st.integers(1, 2))):
+    for _ in range(draw(st.integers(1, 4))):
         ops.append(dict(draw(st_step())))
     return {"program": prog, "ops": ops, "scripts": [[list(k), v] for k, v in scripts.items()],
             "fuel": draw(st.integers(0, 5)), "codes": draw(G.st_codes(D.all_cids(prog)))}
